@@ -5,14 +5,18 @@ from chancommon import KIND, CASE_WALL, shrink_candidates as _chan_shrink, class
 from chancommon import run_impl as _chan_run_impl
 
 SPECS = ["C08"]
-THEOREMS = ["C08.case_spec_partial", "C08.case_spec_full_is_false", "C08.attached_invariant", "C08.reads_pass_through", "C08.fw_prefix", "C08.fw_all", "C08.fw_literal", "C08.fw_at_prompt", "C08.detach_clean", "C08.detach_regex", "C08.overlap_spec", "C08.ovl_longest", "C08.asciiT_decodeReplace", "C08.asciiT_fragments", "C08.fwdFor_text", "C08.step"]
+THEOREMS = ["C08.case_spec_partial", "C08.case_spec_full_is_false", "C08.attached_invariant", "C08.reads_pass_through", "C08.fw_prefix", "C08.fw_all", "C08.fw_literal", "C08.fw_at_prompt", "C08.detach_clean", "C08.detach_regex", "C08.overlap_spec", "C08.ovl_longest", "C08.asciiT_decodeReplace", "C08.asciiT_fragments", "C08.fwdFor_text", "C08.step",
+            "C08.case_spec_overlapping", "C08.window_of_spec", "C08.stream_gets_exactly_its_window", "C08.model_step", "C08.vstep",
+            "C08.fwdFor_visFwd", "C08.Eff.vis"]
+LEAN_MODULES = ["TbotVerif.Props.C08", "TbotVerif.Props.C08OverlapAttach"]
 QUICK_N, THOROUGH_N = 6000, 100000
 QUICK_BUDGET, THOROUGH_BUDGET = 40, 900
 RULE = ("literal and regex prompts, both suppression modes, 1-4 consecutive commands each read with read_until_prompt / "
         "read / expect / read_until_timeout inside sequential or nested attach/detach frames; pieces end inside prompt "
         "look-alikes, prompts appear mid-output, UTF-8 sequences are split; non-trivial = a stream was attached with "
         "suppression on and some read ended inside a prompt prefix (hold-back exercised), or two streams were attached at "
-        "once; distinct = distinct case lines")
+        "once; about 6% of the cases have only show_prompt=1 attachments, up to three open at once, ended in ANY order "
+        "(`st-@<k>` ends the attachment of stream k, not necessarily the innermost one); distinct = distinct case lines")
 TRUSTED = ["text-level comparison uses the ASCII projection (bytes < 0x80), which commutes with decoding for every fragmentation"]
 ASSUMPTIONS = ["stream contents are observed as the sequence of str fragments written to the attached object"]
 
@@ -34,10 +38,46 @@ def specs_for(line):
     return ["C08X"] if line.startswith("exec-log") else SPECS
 
 
+def _read_op(rng, lit):
+    k = rng.random()
+    if k < 0.6:
+        return f"rup:-:{opt(rng.choice([0, 1, 1024]))}"
+    if k < 0.7:
+        return f"read:{rng.choice([1, 2, 5])}:1"
+    if k < 0.8:
+        return "read:-:1"
+    if k < 0.9:
+        return f"ex:1:L{hx(rng.choice([b'x', b'ab', lit]))}"
+    return "rut:1"
+
+
+def _overlap_ops(rng, lit, n_cmds):
+    """attachments that ALL show the prompt (nothing is ever suppressed in such a case), up to three open at the same
+    time, ended in any order: `st-@<k>` names the stream whose attachment ends; the innermost one is ended either way"""
+    ops, open_, sid = [], [], 0
+    for _ in range(n_cmds + rng.randint(0, 2)):
+        while len(open_) < 3 and rng.random() < (0.85 if not open_ else 0.45):
+            ops.append(f"st+:{sid}:1"); open_.append(sid); sid += 1
+        ops.append(_read_op(rng, lit))
+        while open_ and rng.random() < 0.45:
+            j = rng.randrange(len(open_))
+            if j == len(open_) - 1 and rng.random() < 0.5:
+                ops.append(rng.choice(["st-", "st-!"]))
+            else:
+                ops.append(f"st-@{open_[j]}")
+            open_.pop(j)
+        if rng.random() < 0.08:
+            ops.append(f"prompt:{hx(rng.choice(g.PROMPTS))}")
+    while open_:
+        ops.append(f"st-@{open_.pop(rng.randrange(len(open_)))}")
+    return ops
+
+
 def gen_case(rng, params):
     if rng.random() < 0.04:
         import c08consumer
         return c08consumer.gen(rng, params)
+    overlap = rng.random() < 0.06
     chunk = rng.choice([1, 2, 3, 7, params["readChunkSize"], params["readChunkSize"]])
     regex = rng.random() < 0.25
     lit = rng.choice(g.PROMPTS)
@@ -67,6 +107,9 @@ def gen_case(rng, params):
         ops.append(f"wp+:{pat.wire()}")
     elif rng.random() < 0.9:
         ops.append(f"prompt:{hx(lit)}")
+    if overlap:
+        ops += _overlap_ops(rng, lit, n_cmds)
+        return g.case_line(chunk, params["sendSliceSize"], g.script_wire(ticks, pieces), [], ops)
     sid = 0
     depth = 0
     for _ in range(n_cmds):
@@ -75,17 +118,7 @@ def gen_case(rng, params):
             ops.append(f"st+:{sid}:{rng.choice('01')}"); sid += 1; depth += 1
             if rng.random() < 0.25:
                 ops.append(f"st+:{sid}:{rng.choice('01')}"); sid += 1; depth += 1
-        k = rng.random()
-        if k < 0.6:
-            ops.append(f"rup:-:{opt(rng.choice([0, 1, 1024]))}")
-        elif k < 0.7:
-            ops.append(f"read:{rng.choice([1, 2, 5])}:1")
-        elif k < 0.8:
-            ops.append(f"read:-:1")
-        elif k < 0.9:
-            ops.append(f"ex:1:L{hx(rng.choice([b'x', b'ab', lit]))}")
-        else:
-            ops.append("rut:1")
+        ops.append(_read_op(rng, lit))
         while depth and rng.random() < 0.7:
             ops.append(rng.choice(["st-", "st-", "st-!"])); depth -= 1
         if rng.random() < 0.05:
@@ -98,25 +131,49 @@ def gen_case(rng, params):
 def classify(line, obs):
     if line.startswith("exec-log"):
         return ["consumer=" + line.split()[1]]
-    ks = classify_common(line, obs)
+    ks = ["op=st-@" if k.startswith("op=st-@") else k for k in classify_common(line, obs)]
     ops = line.split()[4:]
+    if any(o.startswith("st-@") for o in ops):
+        ks.append("detach=named/" + ("fifo" if _non_lifo(line) else "lifo"))
     ks.append("prompt=" + ("regex" if any(o.startswith("wp+") for o in ops) else "literal"))
     ks.append("fwd=%d" % min(5, sum(0 if o.split(";")[5] == "." else o.split(";")[5].count(",") + 1 for o in obs.split()[1:])))
     return ks
 
 
-def _nesting(line):
-    """list of (outer_show, inner_show) for attachments open at the same time"""
-    st, pairs = [], []
+def _frames(line):
+    """walk through the ops: yields (op, open frames before it) with a frame = (stream id, show_prompt), innermost last"""
+    st = []
     for o in line.split()[4:]:
+        yield o, list(st)
         if o.startswith("st+"):
-            sp = o.split(":")[2]
-            for x in st:
-                pairs.append((x, sp))
-            st.append(sp)
+            st.append((o.split(":")[1], o.split(":")[2]))
         elif o in ("st-", "st-!") and st:
             st.pop()
+        elif o.startswith("st-@"):
+            for i in range(len(st) - 1, -1, -1):
+                if st[i][0] == o[4:]:
+                    st.pop(i)
+                    break
+
+
+def _nesting(line):
+    """list of (outer_show, inner_show) for attachments open at the same time"""
+    pairs = []
+    for o, st in _frames(line):
+        if o.startswith("st+"):
+            for _, x in st:
+                pairs.append((x, o.split(":")[2]))
     return pairs
+
+
+def _non_lifo(line):
+    """some `st-@<k>` ends an attachment that is not the innermost one"""
+    for o, st in _frames(line):
+        if o.startswith("st-@"):
+            idx = [i for i, (sid, _) in enumerate(st) if sid == o[4:]]
+            if idx and idx[-1] != len(st) - 1:
+                return True
+    return False
 
 
 def nontrivial(line, obs):
@@ -142,13 +199,8 @@ def kf_nested_holdback(line, impl, model):
 
 
 def _prompt_change_while_suppressing(line):
-    sup = []
-    for o in line.split()[4:]:
-        if o.startswith("st+"):
-            sup.append(o.endswith(":0"))
-        elif o in ("st-", "st-!") and sup:
-            sup.pop()
-        elif sup and sup[-1] and (o.startswith(("prompt:", "wp+", "wp-")) or (o.startswith("rup:") and not o.startswith("rup:-"))):
+    for o, st in _frames(line):
+        if st and st[-1][1] == "0" and (o.startswith(("prompt:", "wp+", "wp-")) or (o.startswith("rup:") and not o.startswith("rup:-"))):
             return True
     return False
 
